@@ -165,7 +165,7 @@ PROPS["C08"] = {
 PROPS["C09"] = {
     "lean_modules": ["StyluaModel.Props.C09"],
     "theorem_prefix": "C09_",
-    "required_theorems": ["C09_decide", "C09_inRange", "C09_outside_verbatim", "C09_inside_same", "C09_order"],
+    "required_theorems": ["C09_decide", "C09_inRange", "C09_outside_verbatim", "C09_inside_same", "C09_order", "C09_only_first_stripped", "C09_first_stripped_iff"],
     "hx": [["c08"]],
     "level": "proof",
     "level_text": "Proof of the block logic under a range: a statement is formatted iff it lies wholly inside the range, one that does not keeps its semicolon and blank lines, one that does comes out exactly as under whole-file formatting, order is kept — for blocks of any length and all ranges. Byte-level claims (prefix/suffix unchanged, exact text kept) are checked by the oracle on generated programs x all statement-aligned and several unaligned ranges.",
@@ -319,7 +319,7 @@ PROPS["C18"] = {
     "py": [cli.c18],
     "needs_cli": True,
     "level": "proof",
-    "level_text": "Proof for the JSON producer (StyLua's own code): for every valid edit script over files of any length the mismatches, applied as line-range replacements, yield exactly the new text - unconditionally for a producer that records every inserted line, and for the code as it is (an Insert records its first line only) whenever pure insertions are one line long; no mismatch iff nothing differs; reported ranges are the script's. Partial for the unified format, which is produced inside the `similar` crate: it is only applied (by an independent applier) and compared.",
+    "level_text": "Proof for the JSON producer (StyLua's own code): for every valid edit script over files of any length the mismatches, applied as line-range replacements, yield exactly the new text (the code records every inserted / deleted line since fix 4e60dbe; for the code as pinned - first line only - the statement held only when pure insertions were one line long, `C18_json_partial`, with `C18_pinned_violates` as the witness); no mismatch iff nothing differs; reported ranges are the script's. Partial for the unified format, which is produced inside the `similar` crate: it is only applied (by an independent applier) and compared.",
     "level_note": "Trusted: Lean kernel; Model/Diff.lean tied by the `diffjson` correspondence (edit scripts computed with the same `similar` version through the harness); Python appliers for JSON (same algorithm as Diff.apply) and unified diffs; a multi-line pure insertion has not been observed between a file and its formatted form (count reported in the evidence).",
     "technique": "Lean 4 induction over edit scripts + correspondence with the real JSON output + diff appliers as oracle",
     "rule": "40 (thorough 120) seeded corpus files + 10 special pairs (no final newline, CRLF, first / last line changes, 14 separated hunks, multi-line expansion and deletion, blank lines, already formatted, empty) x 4 output formats. ring 2 (`diffjson`): line ranges and line contents of every reported mismatch vs Model/Diff.lean. ring 3: applying the JSON mismatches / the unified diff to the original gives the library's output byte for byte; a diff is printed iff the file differs (all formats). distinct_nontrivial = distinct scripts.",
